@@ -58,7 +58,7 @@ func build(sp *Spec, r *core.Rand) (*workflow.Plan, *PlanRun) {
 		if check {
 			a.Plugin = hplug.CheckName
 		}
-		run.acts[path] = &actState{path: path, retries: retries, script: sp.Scripts[path]}
+		run.acts[path] = &actState{path: path, retries: retries, script: sp.Scripts[path], timeout: a.Timeout}
 		for _, runSteps := range sp.Scripts[path] {
 			for _, s := range runSteps {
 				if s.Gate != 0 && run.gates[s.Gate] == nil {
@@ -372,8 +372,8 @@ func (r *PlanRun) finish() Result {
 	logMu.Lock()
 	r.closed = true
 	evs := r.events
-	hang, late := r.hang, r.lateStarts > 0 || r.lateEnds > 0
-	lateStarts, lateEnds := r.lateStarts, r.lateEnds
+	hang, late := r.hang, r.lateStarts > 0 || r.lateEnds > 0 || r.lateNever > 0
+	lateStarts, lateEnds, lateNever := r.lateStarts, r.lateEnds, r.lateNever
 	inflight := 0
 	for _, a := range r.acts {
 		if a.flying && !a.overrunFly {
@@ -417,7 +417,7 @@ func (r *PlanRun) finish() Result {
 	}
 	allOK := outcomes["err"]+outcomes["perm"]+outcomes["wrongtype"]+outcomes["overrun"] == 0
 	dist := map[string]any{"events": len(evs), "kinds": kinds, "outcomes": outcomes, "hang": hang,
-		"after_release": after, "probes": probes, "late_starts": lateStarts, "late_ends": lateEnds,
+		"after_release": after, "probes": probes, "late_starts": lateStarts, "late_ends": lateEnds, "late_never": lateNever,
 		"start_ok": r.startOK, "racing_starts": r.raced, "start_ctx_cancelled": r.ctxCancelled, "start_ctx_cancel_us": r.ctxCancelUs}
 	for k, v := range sp.Dist {
 		dist[k] = v
